@@ -49,6 +49,8 @@ DEAD_BRANCHES = (
 def build(cx, fe, tier, info, only=None):
     reg = new_registry(fe)
     M.install_bound_api(reg, cx)
+    M.install_sampler_hooks(reg)
+    M.install_stat_tracking(reg)
     ex = Executor(cx, fe, reg)
     _EX['ex'] = ex
 
@@ -115,7 +117,6 @@ def build(cx, fe, tier, info, only=None):
     reg.add_contract(SC.write_shell_update_contract())
     reg.add_contract(SC.evaluate_likelihood_contract())
     SC.compute_bound_contracts(reg)
-    M.install_sampler_hooks(reg)
 
     # ---- update_shell_info
     c_usi = SC.update_shell_info_contract()
